@@ -63,6 +63,7 @@ def egress (macf : MacF) (q : Path) (eg now : Nat) (key : List UInt8) (lookup : 
       if !st.up then (q, .scmpError (.ifDown eg)) else
       if seg != q.currInf then (q, .drop) else
       if q.currHf + 1 == first + len then (q, .drop) else      -- would leave the segment on egress
+      if q.currHf + 1 > 63 then (q, .drop) else                -- the 6-bit CurrHF pointer cannot address the next hop field
       match hopTimely hop info now with
       | some e => (q, .scmpError e)
       | none =>
@@ -90,6 +91,8 @@ def process (macf : MacF) (localAs dstAs : Nat) (p : Path) (ingressIf now : Nat)
     else if p.currHf + 1 == first + len && p.currHf + 1 != p.seg0 + p.seg1 + p.seg2 &&
             ((p.hops[p.currHf + 1]?).isNone || (p.infos[seg + 1]?).isNone) then
       (p, .drop)                                               -- segment end without a following segment
+    else if p.currHf + 1 == first + len && p.currHf + 1 != p.seg0 + p.seg1 + p.seg2 && p.currHf + 1 > 63 then
+      (p, .drop)                                               -- the 6-bit CurrHF pointer cannot address the next segment
     else
     let peering := isPeeringHop p info
     let pktIngress := if info.consDir then hop.consIngress else hop.consEgress
